@@ -66,6 +66,10 @@ class Terminologies(dict):
     loading = {}
     reload_cache = False
 
+    # Guards the tables of loaded documents and of loading threads; load and
+    # deferred_load are called from the loading threads as well.
+    _lock = threading.RLock()
+
     def load(self, url):
         """
         Loads and caches an odML XML file from a URL.
@@ -73,12 +77,17 @@ class Terminologies(dict):
         :param url: location of an odML XML file.
         :return: The odML document loaded from url.
         """
-        if url in self:
-            return self[url]
+        with self._lock:
+            if url in self:
+                return self[url]
 
-        if url in self.loading:
-            self.loading[url].join()
-            self.loading.pop(url, None)
+            thread = self.loading.get(url)
+
+        if thread is not None:
+            thread.join()
+            with self._lock:
+                if self.loading.get(url) is thread:
+                    self.loading.pop(url, None)
             return self.load(url)
 
         return self._load(url)
@@ -104,7 +113,13 @@ class Terminologies(dict):
             print("Failed to load %s due to parser errors" % url)
             print(' "%s"' % exc)
             term = None
-        self[url] = term
+
+        with self._lock:
+            # If another thread has loaded the same url in the meantime, keep
+            # its document; every caller has to receive the same cached object.
+            if self.get(url) is not None:
+                return self[url]
+            self[url] = term
         return term
 
     def deferred_load(self, url):
@@ -113,10 +128,14 @@ class Terminologies(dict):
 
         :param url: location of an odML XML file.
         """
-        if url in self or url in self.loading:
-            return
-        self.loading[url] = threading.Thread(target=self._load, args=(url,))
-        self.loading[url].start()
+        # Check, register and start in one step: a thread that is found in the
+        # loading table must have been started, it may be joined right away.
+        with self._lock:
+            if url in self or url in self.loading:
+                return
+            thread = threading.Thread(target=self._load, args=(url,))
+            self.loading[url] = thread
+            thread.start()
 
     def refresh(self, url):
         """
